@@ -14,7 +14,22 @@ def main():
     tier = sys.argv[2] if len(sys.argv) > 2 else os.environ.get("VERIF_TIER", "quick")
     if tier not in ("quick", "thorough"):
         tier = "quick"
-    return mod.run(tier)
+    try:
+        return mod.run(tier)
+    except Exception:
+        # an answer of the implementation (or of the model) that the orchestrator cannot even parse: the property is no
+        # longer shown to hold on this tree; the traceback is the replay
+        import traceback
+        from common import BUILD
+        tb = traceback.format_exc()
+        os.makedirs(os.path.join(BUILD, "replays"), exist_ok=True)
+        path = os.path.join(BUILD, "replays", "%s-%s-crash.json" % (prop, tier))
+        json.dump({"property": prop, "kind": "obligation-or-correspondence-broken",
+                   "broken": [{"kind": "orchestrator", "what": "the check could not be completed on this tree", "detail": tb[-4000:]}],
+                   "note": "no concrete failing input was found by the search; the property is no longer shown to hold"}, open(path, "w"), indent=1)
+        print(tb, file=sys.stderr)
+        print("VIOLATION property=%s replay=%s no-failing-input-found" % (prop, path), flush=True)
+        return 1
 
 
 def replay(prop, mod, path):
